@@ -1382,3 +1382,91 @@ func init() {
 			return out
 		}})
 }
+
+// ---- SIGNBOUND
+//
+// Rejection sampling of a two-sided distribution compares the magnitude with the bound. Once the sign has been folded
+// into a big.Int draw (`v.Mul(v, ±1)`), `v.Cmp(bound) < 1` accepts every negative draw whatever its size: the test has
+// to be `CmpAbs`, or has to come before the sign is applied.
+func scanSignBound(c *core.Ctx) []ob {
+	var out []ob
+	n := 0
+	c.FuncDecls(func(pk *packages.Package, file *ast.File, fd *ast.FuncDecl) {
+		rel := core.ShortPkg(pk.PkgPath)
+		if fd.Body == nil || fileIsTestSupport(c.Program, fd.Pos()) || !(c.IsFixture || rel == "ring" || strings.HasPrefix(rel, "utils/")) {
+			return
+		}
+		info := pk.TypesInfo
+		fkey := core.FuncKey(pk, fd)
+		// big.Int variables that received a sign factor: v.Mul(v, E) / v.Neg(v) with E mentioning a variable named *sign*
+		signedAt := map[types.Object]token.Pos{}
+		ast.Inspect(fd.Body, func(x ast.Node) bool {
+			call, ok := x.(*ast.CallExpr)
+			if !ok {
+				return true
+			}
+			sel, ok := unparen(call.Fun).(*ast.SelectorExpr)
+			if !ok || !isBigNumber(deref(info.TypeOf(sel.X))) {
+				return true
+			}
+			id, ok := unparen(sel.X).(*ast.Ident)
+			if !ok {
+				return true
+			}
+			mentionsSign := false
+			for _, a := range call.Args {
+				ast.Inspect(a, func(y ast.Node) bool {
+					if sid, ok := y.(*ast.Ident); ok && strings.Contains(strings.ToLower(sid.Name), "sign") {
+						mentionsSign = true
+					}
+					return true
+				})
+			}
+			if (sel.Sel.Name == "Mul" && mentionsSign) || sel.Sel.Name == "Neg" {
+				if _, seen := signedAt[info.Uses[id]]; !seen {
+					signedAt[info.Uses[id]] = call.Pos()
+				}
+			}
+			return true
+		})
+		ast.Inspect(fd.Body, func(x ast.Node) bool {
+			call, ok := x.(*ast.CallExpr)
+			if !ok || len(call.Args) != 1 {
+				return true
+			}
+			sel, ok := unparen(call.Fun).(*ast.SelectorExpr)
+			if !ok || (sel.Sel.Name != "Cmp" && sel.Sel.Name != "CmpAbs") || !isBigNumber(deref(info.TypeOf(sel.X))) {
+				return true
+			}
+			if !strings.Contains(strings.ToLower(exprString(call.Args[0])), "bound") {
+				return true
+			}
+			id, ok := unparen(sel.X).(*ast.Ident)
+			if !ok {
+				return true
+			}
+			n++
+			key := fmt.Sprintf("SIGNBOUND:%s#%s.%s(%s)", fkey, id.Name, "Cmp", exprString(call.Args[0]))
+			sp, signed := signedAt[info.Uses[id]]
+			if sel.Sel.Name == "Cmp" && signed && sp < call.Pos() {
+				out = append(out, violOb("SIGNBOUND", key, c.Rel(call.Pos()), fmt.Sprintf("%s applies the sign to %s at %s and then compares it with %s using Cmp: every negative draw passes the rejection test whatever its magnitude", fkey, id.Name, c.Rel(sp), exprString(call.Args[0]))))
+			} else {
+				out = append(out, okOb("SIGNBOUND", key, c.Rel(call.Pos()), "the bound test is on the magnitude", true))
+			}
+			return true
+		})
+	})
+	c.Stats["signbound_sites"] = n
+	return out
+}
+
+func init() {
+	core.Register(&core.Rule{Name: "SIGNBOUND", Props: []string{"C17"},
+		Doc: "a big-integer draw is compared with its bound by magnitude (CmpAbs) or before the sign factor is applied, never with Cmp after v.Mul(v, ±1)",
+		Run: func(c *core.Ctx) []ob {
+			out := scanSignBound(c)
+			out = append(out, core.Floor("SIGNBOUND", nil, "bound tests of big-integer draws", c.Stats["signbound_sites"], 1)...)
+			out = append(out, control(c, "SIGNBOUND", scanSignBound, "drawSigned")...)
+			return out
+		}})
+}
